@@ -9,7 +9,7 @@
 (* inside software/comment, an empty software string are tolerated);       *)
 (* not accepted by Loose => MUST NOT be answered.                          *)
 (***************************************************************************)
-EXTENDS Integers, Sequences
+EXTENDS Integers, Sequences, SequencesExt
 
 SSH_REPLY == << 83, 83, 72, 45, 50, 46, 48, 45, 49, 13, 10 >>     \* "SSH-2.0-1\r\n"
 GHOST_MAGIC == << 71, 104, 48, 115, 116 >>                        \* "Gh0st"
@@ -44,15 +44,11 @@ SshStrictStep(st, c) ==
       [] st = "CR" -> IF c = 10 THEN "EOB" ELSE "FAIL"
       [] OTHER -> st
 
-RECURSIVE SshLooseRun(_, _, _)
-SshLooseRun(s, i, st) ==
-    IF st = "EOB" \/ st = "FAIL" \/ i > Len(s) THEN st
-    ELSE SshLooseRun(s, i + 1, SshLooseStep(st, s[i]))
+SshLooseRun(s, i, st0) ==
+    FoldLeft(LAMBDA st, c : IF st = "EOB" \/ st = "FAIL" THEN st ELSE SshLooseStep(st, c), st0, s)
 
-RECURSIVE SshStrictRun(_, _, _)
-SshStrictRun(s, i, st) ==
-    IF st = "EOB" \/ st = "FAIL" \/ i > Len(s) THEN st
-    ELSE SshStrictRun(s, i + 1, SshStrictStep(st, s[i]))
+SshStrictRun(s, i, st0) ==
+    FoldLeft(LAMBDA st, c : IF st = "EOB" \/ st = "FAIL" THEN st ELSE SshStrictStep(st, c), st0, s)
 
 SshMust(s)    == SshStrictRun(s, 1, "S1") = "EOB"
 SshMustNot(s) == SshLooseRun(s, 1, "S1") # "EOB"
